@@ -724,36 +724,44 @@ package gogu
 //@   ghost pos map[int]int
 //@   ghost back map[int]int
 //@   ghost miss map[int]int
+//@   ghost memb map[int]map[int]int
+//@   ghost mw map[int]int
 //@   ghost w int
 //@   ensures fresh(result)
-//@   ensures forall k int :: 0 <= k && k < len(result) ==> 0 <= pos[k] && pos[k] < len(params[0]) && result[k] == params[0][pos[k]]
-//@   ensures forall k int, p int :: 0 <= k && k < len(result) && 1 <= p && p < len(params) ==> exists m int :: 0 <= m && m < len(params[p]) && params[p][m] == result[k]
-//@   ensures forall k int, j int :: 0 <= k && k < len(result) && 0 <= j && j < pos[k] ==> params[0][j] != params[0][pos[k]]
-//@   ensures forall j int :: 0 <= j && j < len(params[0]) ==> (0 <= back[j] && back[j] < len(result) && result[back[j]] == params[0][j]) || (1 <= miss[j] && miss[j] < len(params) && forall m int :: 0 <= m && m < len(params[miss[j]]) ==> params[miss[j]][m] != params[0][j])
-//@   ensures forall a int, b int :: 0 <= a && a < b && b < len(result) ==> pos[a] < pos[b]
+//@   ensures forall k int :: { pos[k] } 0 <= k && k < len(result) ==> 0 <= pos[k] && pos[k] < len(params[0]) && result[k] == params[0][pos[k]]
+//@   ensures forall k int, p int :: { memb[k][p] } 0 <= k && k < len(result) && 1 <= p && p < len(params) ==> 0 <= memb[k][p] && memb[k][p] < len(params[p]) && params[p][memb[k][p]] == result[k]
+//@   ensures forall k int, j int :: { pos[k], params[0][j] } 0 <= k && k < len(result) && 0 <= j && j < pos[k] ==> params[0][j] != params[0][pos[k]]
+//@   ensures forall j int :: { back[j] } 0 <= j && j < len(params[0]) ==> (0 <= back[j] && back[j] < len(result) && result[back[j]] == params[0][j]) || (1 <= miss[j] && miss[j] < len(params) && forall m int :: { params[miss[j]][m] } 0 <= m && m < len(params[miss[j]]) ==> params[miss[j]][m] != params[0][j])
+//@   ensures forall a int, b int :: { pos[a], pos[b] } 0 <= a && a < b && b < len(result) ==> pos[a] < pos[b]
 //@   ensures forall a int, b int :: 0 <= a && a < b && b < len(result) ==> result[a] != result[b]
 //@ loop 1
 //@   invariant fresh(result) && 0 <= i && i <= len(params[0])
-//@   invariant forall k int :: 0 <= k && k < len(result) ==> 0 <= pos[k] && pos[k] < i && result[k] == params[0][pos[k]]
-//@   invariant forall k int, p int :: 0 <= k && k < len(result) && 1 <= p && p < len(params) ==> exists m int :: 0 <= m && m < len(params[p]) && params[p][m] == result[k]
-//@   invariant forall k int, j int :: 0 <= k && k < len(result) && 0 <= j && j < pos[k] ==> params[0][j] != params[0][pos[k]]
-//@   invariant forall j int :: 0 <= j && j < i ==> (0 <= back[j] && back[j] < len(result) && result[back[j]] == params[0][j]) || (1 <= miss[j] && miss[j] < len(params) && forall m int :: 0 <= m && m < len(params[miss[j]]) ==> params[miss[j]][m] != params[0][j])
-//@   invariant forall a int, b int :: 0 <= a && a < b && b < len(result) ==> pos[a] < pos[b]
+//@   invariant forall k int :: { pos[k] } 0 <= k && k < len(result) ==> 0 <= pos[k] && pos[k] < i && result[k] == params[0][pos[k]]
+//@   invariant forall k int, p int :: { memb[k][p] } 0 <= k && k < len(result) && 1 <= p && p < len(params) ==> 0 <= memb[k][p] && memb[k][p] < len(params[p]) && params[p][memb[k][p]] == result[k]
+//@   invariant forall k int, j int :: { pos[k], params[0][j] } 0 <= k && k < len(result) && 0 <= j && j < pos[k] ==> params[0][j] != params[0][pos[k]]
+//@   invariant forall j int :: { back[j] } 0 <= j && j < i ==> (0 <= back[j] && back[j] < len(result) && result[back[j]] == params[0][j]) || (1 <= miss[j] && miss[j] < len(params) && forall m int :: { params[miss[j]][m] } 0 <= m && m < len(params[miss[j]]) ==> params[miss[j]][m] != params[0][j])
+//@   invariant forall a int, b int :: { pos[a], pos[b] } 0 <= a && a < b && b < len(result) ==> pos[a] < pos[b]
 //@   ghost-at Contains#1: back[i] = w when $ret
 //@   ghost-at Contains#2: miss[i] = j when !$ret
+//@   ghost-at Contains#2: mw[j] = w when $ret
 //@   ghost-at append#1: pos[len($ret)-1] = i
 //@   ghost-at append#1: back[i] = len($ret)-1
+//@   ghost-at append#1: memb[len($ret)-1] = mw
 //@ loop 2
 //@   invariant 1 <= j && j <= len(params)
-//@   invariant forall p int :: 1 <= p && p < j ==> exists m int :: 0 <= m && m < len(params[p]) && params[p][m] == item
+//@   invariant forall p int :: { mw[p] } { params[p] } 1 <= p && p < j ==> 0 <= mw[p] && mw[p] < len(params[p]) && params[p][mw[p]] == item
 //@   invariant forall q int :: q != i ==> miss[q] == lold(miss[q])
 
 //@ func gogu.IntersectionBy$1
 //@   property C11
+//@   ghost hw int = 0
 //@   requires fn != nil && 0 <= j && j < len(params)
 //@   ensures result <==> exists m int :: 0 <= m && m < len(params[j]) && call(fn, params[j][m]) == call(fn, item)
+//@   ensures result ==> 0 <= hw && hw < len(params[j]) && call(fn, params[j][hw]) == call(fn, item)
 //@ loop 1
 //@   invariant forall m int :: 0 <= m && m < $i ==> call(fn, params[j][m]) != call(fn, item)
+//@   invariant hw == $i
+//@   ghost hw = $i + 1
 
 //@ func gogu.IntersectionBy
 //@   property C11 C16
@@ -761,25 +769,30 @@ package gogu
 //@   ghost pos map[int]int
 //@   ghost back map[int]int
 //@   ghost miss map[int]int
+//@   ghost memb map[int]map[int]int
+//@   ghost mw map[int]int
 //@   ghost w int
+//@   ghost hw int
 //@   ensures fresh(result)
-//@   ensures forall k int :: 0 <= k && k < len(result) ==> 0 <= pos[k] && pos[k] < len(params[0]) && result[k] == params[0][pos[k]]
-//@   ensures forall k int, p int :: 0 <= k && k < len(result) && 1 <= p && p < len(params) ==> exists m int :: 0 <= m && m < len(params[p]) && call(fn, params[p][m]) == call(fn, result[k])
-//@   ensures forall j int :: 0 <= j && j < len(params[0]) ==> (0 <= back[j] && back[j] < len(result) && result[back[j]] == params[0][j]) || (1 <= miss[j] && miss[j] < len(params) && forall m int :: 0 <= m && m < len(params[miss[j]]) ==> call(fn, params[miss[j]][m]) != call(fn, params[0][j]))
-//@   ensures forall a int, b int :: 0 <= a && a < b && b < len(result) ==> pos[a] < pos[b]
+//@   ensures forall k int :: { pos[k] } 0 <= k && k < len(result) ==> 0 <= pos[k] && pos[k] < len(params[0]) && result[k] == params[0][pos[k]]
+//@   ensures forall k int, p int :: { memb[k][p] } 0 <= k && k < len(result) && 1 <= p && p < len(params) ==> 0 <= memb[k][p] && memb[k][p] < len(params[p]) && call(fn, params[p][memb[k][p]]) == call(fn, result[k])
+//@   ensures forall j int :: { back[j] } 0 <= j && j < len(params[0]) ==> (0 <= back[j] && back[j] < len(result) && result[back[j]] == params[0][j]) || (1 <= miss[j] && miss[j] < len(params) && forall m int :: { params[miss[j]][m] } 0 <= m && m < len(params[miss[j]]) ==> call(fn, params[miss[j]][m]) != call(fn, params[0][j]))
+//@   ensures forall a int, b int :: { pos[a], pos[b] } 0 <= a && a < b && b < len(result) ==> pos[a] < pos[b]
 //@ loop 1
 //@   invariant fresh(result) && 0 <= i && i <= len(params[0])
-//@   invariant forall k int :: 0 <= k && k < len(result) ==> 0 <= pos[k] && pos[k] < i && result[k] == params[0][pos[k]]
-//@   invariant forall k int, p int :: 0 <= k && k < len(result) && 1 <= p && p < len(params) ==> exists m int :: 0 <= m && m < len(params[p]) && call(fn, params[p][m]) == call(fn, result[k])
-//@   invariant forall j int :: 0 <= j && j < i ==> (0 <= back[j] && back[j] < len(result) && result[back[j]] == params[0][j]) || (1 <= miss[j] && miss[j] < len(params) && forall m int :: 0 <= m && m < len(params[miss[j]]) ==> call(fn, params[miss[j]][m]) != call(fn, params[0][j]))
-//@   invariant forall a int, b int :: 0 <= a && a < b && b < len(result) ==> pos[a] < pos[b]
+//@   invariant forall k int :: { pos[k] } 0 <= k && k < len(result) ==> 0 <= pos[k] && pos[k] < i && result[k] == params[0][pos[k]]
+//@   invariant forall k int, p int :: { memb[k][p] } 0 <= k && k < len(result) && 1 <= p && p < len(params) ==> 0 <= memb[k][p] && memb[k][p] < len(params[p]) && call(fn, params[p][memb[k][p]]) == call(fn, result[k])
+//@   invariant forall j int :: { back[j] } 0 <= j && j < i ==> (0 <= back[j] && back[j] < len(result) && result[back[j]] == params[0][j]) || (1 <= miss[j] && miss[j] < len(params) && forall m int :: { params[miss[j]][m] } 0 <= m && m < len(params[miss[j]]) ==> call(fn, params[miss[j]][m]) != call(fn, params[0][j]))
+//@   invariant forall a int, b int :: { pos[a], pos[b] } 0 <= a && a < b && b < len(result) ==> pos[a] < pos[b]
 //@   ghost-at Contains#1: back[i] = w when $ret
 //@   ghost-at IntersectionBy$1#1: miss[i] = j when !$ret
+//@   ghost-at IntersectionBy$1#1: mw[j] = hw when $ret
 //@   ghost-at append#1: pos[len($ret)-1] = i
 //@   ghost-at append#1: back[i] = len($ret)-1
+//@   ghost-at append#1: memb[len($ret)-1] = mw
 //@ loop 2
 //@   invariant 1 <= j && j <= len(params)
-//@   invariant forall p int :: 1 <= p && p < j ==> exists m int :: 0 <= m && m < len(params[p]) && call(fn, params[p][m]) == call(fn, item)
+//@   invariant forall p int :: { mw[p] } { params[p] } 1 <= p && p < j ==> 0 <= mw[p] && mw[p] < len(params[p]) && call(fn, params[p][mw[p]]) == call(fn, item)
 //@   invariant forall q int :: q != i ==> miss[q] == lold(miss[q])
 
 //@ func gogu.Duplicate
